@@ -136,9 +136,27 @@ type exec struct {
 	step int
 	stop bool
 	enumerated int // sink-failure enumerations done in this run
+	partial    bool            // the store is in a state the model does not follow: the run must end
+	own        bool            // a finding of the property under check was recorded
+	foreign    map[string]bool // findings of other properties already recorded
 }
 
+// viol: a finding of the property under check ends the run. A finding that belongs to another
+// property (the three fork-choice properties share this engine) is recorded once per signature and
+// the run goes on: otherwise the oracle that happens to fire first would hide the same defect from
+// the check of the property it also breaks (the driver reports only the property under check).
 func (x *exec) viol(prop, sig, detail string) {
+	if x.opt.Property != "" && prop != x.opt.Property {
+		if x.foreign == nil {
+			x.foreign = map[string]bool{}
+		}
+		if !x.foreign[sig] {
+			x.foreign[sig] = true
+			x.res.Violate(prop, sig, detail, x.step)
+		}
+		return
+	}
+	x.own = true
 	x.res.Violate(prop, sig, detail, x.step)
 }
 
@@ -820,6 +838,7 @@ func (x *exec) doUpdate(n *simNode, op *Op, relaxedFork bool) {
 		// justified node, which lies in the finalized subtree (all of it retained)
 		x.checkHeadP("C10", n, "Head-after-sink-failure", m.HeadStart(), func() (common.NodeRef, error) { return fc.Head() })
 		x.stop = true // partially pruned state: the run ends here
+		x.partial = true
 		return
 	}
 	if x.cfg.NilSink {
@@ -944,16 +963,19 @@ func (x *exec) run(ops []Op, upto int, override *Op) *simNode {
 		case "audit":
 			x.audit(n)
 		}
+		if x.stop && !x.own && x.opt.Property != "" && !x.partial {
+			x.stop = false // only findings of other properties so far: go on
+		}
 		if x.stop {
 			break
 		}
 		if x.cfg.AuditEvery && op.K != "audit" && op.K != "head" && op.K != "findhead" {
 			x.checkHead(n, "Head", m.HeadStart(), func() (common.NodeRef, error) { return fc.Head() })
-			if !x.stop && len(res.Violations) == 0 {
+			if !x.stop && !x.own {
 				x.audit(n)
 			}
 		}
-		if len(res.Violations) > 0 {
+		if x.own || (x.opt.Property == "" && len(res.Violations) > 0) {
 			break
 		}
 		if override == nil {
